@@ -35,6 +35,35 @@ MUST_STOP = ["bfgs", "newton.root", "newton.crit", "newton.min", "rprop", "rprop
 ALL_ROUTINES = MUST_STOP + ["adam.gradient", "blahut", "blahut.naive"]
 
 
+# mechanism layer (spec/OptimizerMech.tla): transcription -> (cfg, invariant expected to be violated or None)
+MECH = [("rprop", "OptimizerMech.cfg", None), ("rpropg_fixed", "OptimizerMech.cfg", None), ("adam_fixed", "OptimizerMech.cfg", None),
+        ("newton", "OptimizerMech.cfg", None),
+        ("bfgs", "OptimizerMech_feasible.cfg", "FeasibleReturnMech"),
+        ("rpropg_orig", "OptimizerMech_hook.cfg", "HookFaithfulMech"),
+        ("adam_orig", "OptimizerMech_feasible.cfg", "FeasibleReturnMech")]
+MECH_THOROUGH = [("bfgs", "OptimizerMech_justified.cfg", None), ("bfgs", "OptimizerMech_hook.cfg", None),
+                 ("rpropg_orig", "OptimizerMech_justified.cfg", "JustifiedReturnMech"),
+                 ("adam_orig", "OptimizerMech_hook.cfg", None), ("adam_orig", "OptimizerMech_justified.cfg", None)]
+
+
+def mechanism_layer(ctx):
+    """TLC checks that the transcribed control flow of the routines refines the contract; the transcriptions of
+    the code before the fixes and of BFGS must be rejected in exactly the clause the real code violates."""
+    table = MECH + (MECH_THOROUGH if ctx.tier == "thorough" else [])
+    consts = {"MaxPoints": "5", "Cap": "3"} if ctx.tier == "thorough" else {}
+    out = {}
+    for routine, cfg, expect in table:
+        c = dict(consts)
+        c["Routine"] = '"%s"' % routine
+        r = ctx.tlc("OptimizerMech", cfg, workers=2, timeout=600, consts=c, label="mech-%s-%s" % (routine, cfg[14:-4] or "all"),
+                    allow_violation=True)
+        got = r.violated[0] if r.violated else None
+        if (not r.ok and not r.violated) or got != expect:
+            raise vlib.Infra("mechanism layer: %s with %s: expected %s, TLC says %s %s" % (routine, cfg, expect, got, r.errors[:2]))
+        out["%s/%s" % (routine, cfg[14:-4] or "refines")] = "refines the contract" if expect is None else "counterexample: " + expect
+    ctx.extra["mechanism_layer"] = out
+
+
 def gen_cases(ctx, tier):
     cases = ctx.path("optim-cases-%s.ndjson" % tier)
     res = ctx.tlc("Quadratics", TIERS[tier]["cases"], workers=4, timeout=1500, json_out=cases, label="cases")
@@ -254,6 +283,7 @@ def run(ctx):
     # 1. the contract itself: every environment choice within the bounds
     res = ctx.tlc("OptimizerSkeleton_MC", "OptimizerSkeleton.cfg", workers=4, timeout=3000, consts=t["skeleton"], label="skeleton")
     ctx.log("contract model: %d distinct states, %d transitions, depth %d" % (res.distinct, res.generated, res.depth))
+    mechanism_layer(ctx)
     # 2. the objective families with exact optima
     cases, ncases = gen_cases(ctx, ctx.tier)
     # 3. the real routines
